@@ -37,8 +37,10 @@ def run_jobs(jobs, order_seed=0, nproc=None, timeout=3000, module=WORKER):
     env = dict(os.environ, PYTABLEAUX_VERIF='1', PYTABLEAUX_VERIF_ORDER=str(order_seed), PYTHONDONTWRITEBYTECODE='1',
                PYTHONHASHSEED='0')
 
+    prefix = common.no_aslr_prefix()      # decided once, before the threads start
+
     def work(chunk):
-        p = subprocess.run([PY, '-m', module], input='\n'.join(json.dumps(j) for j in chunk) + '\n',
+        p = subprocess.run(prefix + [PY, '-m', module], input='\n'.join(json.dumps(j) for j in chunk) + '\n',
                            capture_output=True, text=True, cwd=str(ROOT), env=env, timeout=timeout)
         outs = [json.loads(l) for l in p.stdout.splitlines() if l.strip().startswith('{')]
         got = {o.get('id') for o in outs}
